@@ -24,14 +24,19 @@ theorem CalcR.mem_dyn {inp : RunInput} {s : Sys} {n : Name} {nd : Node} (hok : N
     (sd : SelDeps inp s n nd) {c : Name} (h : CalcR inp n c) : c ∈ nd.dynCalc := by
   induction h with
   | static hc => exact hok.st.2 _ hc
-  | @deliv c x d _ hd hg hm ih =>
+  | @deliv c x d _ hd hm ih =>
     have hin : c ∈ nd.dynTask ++ nd.dynCalc := by simp [ih]
     have e : d = ddOf inp s c := hd.functional (sd.hT c hin)
-    rw [e, sd.rs c hin] at hg
-    exact (sd.deliv c ih hg).2.2 x hm
+    subst e
+    rcases delivOf_cases inp c (ddOf inp s c) with ⟨hg, e⟩ | ⟨hg, hsf, e⟩ | e
+    · rw [e] at hm; rw [sd.rs c hin] at hg
+      exact (sd.deliv c ih hg).2.2 x hm
+    · rw [e] at hm; rw [sd.rs c hin] at hg
+      exact (sd.delivF c ih (sd.cls c hin).1 hg hsf).2.2 x hm
+    · rw [e] at hm; cases hm
 
 /-- at a complete end every member of the denotational closure has been reported -/
-theorem closure_reported {inp : RunInput} [NoFailDeliver inp] {s : Sys} (hr : Reach inp s ∨ PReach inp s)
+theorem closure_reported {inp : RunInput} {s : Sys} (hr : Reach inp s ∨ PReach inp s)
     (hend : s.rpc = .halted) (hhalt : s.halt = .none) (hstop : s.stop = false) (t : Name) (h : DenCl inp t) :
     Reported s t := by
   have hE : EndFacts inp s := by
@@ -44,6 +49,7 @@ theorem closure_reported {inp : RunInput} [NoFailDeliver inp] {s : Sys} (hr : Re
   have hG : InvG inp s := by rcases hr with a | a; exact reach_invG a; exact preach_invG a
   have sdOf : ∀ t nd, s.nodes t = some nd → SelDeps inp s t nd := fun t nd hn =>
     sel_deps hD.den hD.nodeS h2.inv1 hG.dc hn (by rw [hE.allDone t nd hn]; rfl) (by rw [hE.allDone t nd hn]; rfl)
+      (hD.delivF h2.inv1 hn (by rw [hE.allDone t nd hn]; rfl))
   have mk : ∀ t, DenCl inp t → created s t := by
     intro t ht
     induction ht with
@@ -54,17 +60,25 @@ theorem closure_reported {inp : RunInput} [NoFailDeliver inp] {s : Sys} (hr : Re
     | @ofCalc t c _ hc ih =>
       obtain ⟨nd, hn⟩ := ih
       exact end_calc_created hr hE t nd hn c (hc.mem_dyn (h2.inv1.node t nd hn) (sdOf t nd hn))
-    | @ofDeliv t c x d _ hc hd hg hm ih =>
+    | @ofDeliv t c x d _ hc hd hm ih =>
       obtain ⟨nd, hn⟩ := ih
       have sd := sdOf t nd hn
       have hcm := hc.mem_dyn (h2.inv1.node t nd hn) sd
       have hin : c ∈ nd.dynTask ++ nd.dynCalc := by simp [hcm]
       have e : d = ddOf inp s c := hd.functional (sd.hT c hin)
-      rw [e, sd.rs c hin] at hg
-      obtain ⟨d1, d2, _⟩ := sd.deliv c hcm hg
-      rcases hm with m | m
-      · exact hE.dep t nd hn x (d1 x m)
-      · exact hE.dep t nd hn x (d2 x m)
+      subst e
+      rcases delivOf_cases inp c (ddOf inp s c) with ⟨hg, e⟩ | ⟨hg, hsf, e⟩ | e
+      · rw [e] at hm; rw [sd.rs c hin] at hg
+        obtain ⟨d1, d2, _⟩ := sd.deliv c hcm hg
+        rcases hm with m | m
+        · exact hE.dep t nd hn x (d1 x m)
+        · exact hE.dep t nd hn x (d2 x m)
+      · rw [e] at hm; rw [sd.rs c hin] at hg
+        obtain ⟨d1, d2, _⟩ := sd.delivF c hcm (sd.cls c hin).1 hg hsf
+        rcases hm with m | m
+        · exact hE.dep t nd hn x (d1 x m)
+        · exact hE.dep t nd hn x (d2 x m)
+      · rw [e] at hm; rcases hm with m | m <;> cases m
     | @ofSetup t d _ hr1 hd ih =>
       obtain ⟨nd, hn⟩ := ih
       rcases (hP2 t nd hn).fin (hE.allDone t nd hn) (hE.notNone t nd hn) with a | a | a
@@ -75,7 +89,7 @@ theorem closure_reported {inp : RunInput} [NoFailDeliver inp] {s : Sys} (hr : Re
 
 /-- closure equality: at a complete end of a run — serial or parallel, any schedule, any graph — exactly the members of
     the denotational closure of the selection have a terminal report -/
-theorem reported_iff_closure {inp : RunInput} [NoFailDeliver inp] {s : Sys} (hr : Reach inp s ∨ PReach inp s)
+theorem reported_iff_closure {inp : RunInput} {s : Sys} (hr : Reach inp s ∨ PReach inp s)
     (hend : s.rpc = .halted) (hhalt : s.halt = .none) (hstop : s.stop = false) (t : Name) :
     Reported s t ↔ DenCl inp t :=
   ⟨reported_in_closure hr t, closure_reported hr hend hhalt hstop t⟩
